@@ -298,3 +298,43 @@ for _pid, _thm in (("C06", "source_compressor_match"), ("C05", "source_block_mat
     _te = "tools/inventory_hashc.py (translator, round 6): reading table printed in the header of lean/CC/Gen/HashCSrc.lean (raw pointers, unions, transmute!, constant match, function values, intrinsics ↦ CC.Groestl.Intrin)"
     if _te not in PROPS[_pid].get("trusted_extra", []):
         PROPS[_pid]["trusted_extra"] = list(PROPS[_pid].get("trusted_extra", [])) + [_te]
+
+
+# ---- source tie of guts.rs also registered with C14 / C15 (same statement as C01's), of the counter code with C17
+for _pid in ("C14", "C15"):
+    if "source_code_match" not in PROPS[_pid]["theorems"]:
+        PROPS[_pid]["theorems"] = list(PROPS[_pid]["theorems"]) + ["source_code_match"]
+if "source_counters_match" not in PROPS["C17"]["theorems"]:
+    PROPS["C17"]["theorems"] = list(PROPS["C17"]["theorems"]) + ["source_counters_match"]
+
+
+# ---- C14: `refill4 = 4 x refill` at round counts the model cannot execute (impl-only self-consistency, op `guts r4eq`;
+#      the theorem refill4_eq covers every count).  2^16 .. 2^24 double rounds always; 2^31 and 2^32-1 (the values at which
+#      a cast of the u32 count to i32 / a +1 changes character; ~90 s each) in the thorough tier, and in the quick tier
+#      only when the regenerated translation of guts.rs differs from the committed one (search directed by the source tie).
+def _c14_extra(pid, tier, seed):
+    import cclib
+    out = {"coverage": {"huge_round_counts": {}}, "violations": [], "evaluations": 0}
+    drs = [2 ** 16, 2 ** 16 + 1, 2 ** 20 + 1, 2 ** 24]
+    if tier == "thorough" or cclib.gen_changed("Kernels.lean"):
+        drs += [2 ** 31, 2 ** 32 - 1]
+    for cfg in ["std-release"]:
+        ok, binp, _ = cclib.harness_build(cfg)
+        if not ok:
+            continue
+        ops = ["guts new 0 %s %s" % ("0f" * 32, "a5" * 8), "guts set 0 0 %d" % (2 ** 32 - 2)] + ["guts r4eq 0 %d" % d for d in drs]
+        res, _ = cclib.run_lines(binp, ["cfg profile release"] + ops, timeout=3000)
+        got = (res or [])[3:]
+        out["coverage"]["huge_round_counts"][cfg] = dict(zip(map(str, drs), got))
+        out["evaluations"] += len(got)
+        for d, r in zip(drs, got + ["?"] * (len(drs) - len(got))):
+            if r != "eq":
+                rp = cclib.write_replay(pid, seed, "r4eq-%s-%d" % (cfg, d),
+                                        "# cfg=%s\n# property=%s: refill4 and four refills from the same state disagree (%s) for %d double rounds (impl only; theorem refill4_eq)\n%s\nguts r4eq 0 %d\n"
+                                        % (cfg, pid, r, d, "\n".join(ops[:2]), d))
+                out["violations"].append(("refill4 differs from four refills at %d double rounds" % d, rp, False))
+                break
+    return out
+
+
+PROPS["C14"]["extra"] = _c14_extra
